@@ -279,7 +279,7 @@ def specOwn (steps : List String) (model : String) : String :=
 
 /-- which clone the code under test has: `false` = /repo HEAD (`deepCloneValue` shares below `maxCloneDepth`),
     `true` = after pending/C15-clone-deep-default (memoised clone) -/
-def deepCloneFixed : Bool := false
+def deepCloneFixed : Bool := true
 
 def deepLook : Nat := 90
 
